@@ -31,6 +31,7 @@ package oauth2
 //@   ensures err != nil ==> code_active == old(code_active) && faults == old(faults) + 1
 
 //@ interface AccessTokenStorage.CreateAccessTokenSession
+//@   requires [C20.stored-form-has-no-secret] formget(request.GetRequestForm(), "client_secret") == "" && formget(request.GetRequestForm(), "client_assertion") == "" && formget(request.GetRequestForm(), "password") == "" && formget(request.GetRequestForm(), "code_verifier") == ""
 //@   modifies acc_exists, acc_rid, acc_client, acc_req, stored, faults, tx_escaped
 //@   ensures tx_escaped == old(tx_escaped) + escapes(ctx, err)
 //@   ensures err == nil ==> acc_exists == upd(old(acc_exists), signature, true) && acc_rid == upd(old(acc_rid), signature, request.GetID()) && acc_client == upd(old(acc_client), signature, request.GetClient().GetID()) && acc_req == upd(old(acc_req), signature, request) && stored == upd(old(stored), request, true) && faults == old(faults)
@@ -50,6 +51,7 @@ package oauth2
 //@   ensures err != nil ==> acc_exists == old(acc_exists) && faults == old(faults) + 1
 
 //@ interface RefreshTokenStorage.CreateRefreshTokenSession
+//@   requires [C20.stored-form-has-no-secret] formget(request.GetRequestForm(), "client_secret") == "" && formget(request.GetRequestForm(), "client_assertion") == "" && formget(request.GetRequestForm(), "password") == "" && formget(request.GetRequestForm(), "code_verifier") == ""
 //@   modifies ref_exists, ref_active, ref_rid, ref_client, ref_acc, ref_req, ref_ever, stored, faults, tx_escaped
 //@   ensures tx_escaped == old(tx_escaped) + escapes(ctx, err)
 //@   ensures err == nil ==> ref_exists == upd(old(ref_exists), signature, true) && ref_active == upd(old(ref_active), signature, true) && ref_rid == upd(old(ref_rid), signature, request.GetID()) && ref_client == upd(old(ref_client), signature, request.GetClient().GetID()) && ref_acc == upd(old(ref_acc), signature, accessSignature) && ref_req == upd(old(ref_req), signature, request) && stored == upd(old(stored), request, true) && faults == old(faults)
@@ -137,6 +139,7 @@ package oauth2
 //@   requires c != nil && request != nil && !stored[request] && !shared[request] && !shared[request.GetSession()]
 //@   modifies acc_exists, ref_active, faults, validated_n, tx_escaped
 //@   ensures [C06.lookup-then-validate] err == nil ==> validated_n[code] > old(validated_n[code])
+//@   ensures [C08.redeemed-tokens-carry-the-grant-id] err == nil ==> request.GetID() == rid
 // the hint of the replay refusal is built from literals of the program text only: what a failing revocation said goes to the debug
 // field (consttext: literals and their concatenations; rewording the message does not matter)
 //@   assert @call(WithHint)#4 [C20.replay-hint-carries-no-internal-error-text] consttext($arg1)
@@ -282,6 +285,7 @@ package oauth2
 //@   invariant loop#2 [C12.refresh-carries-only-granted] $i <= len(originalRequest.GetGrantedAudience()) && originalRequest != request && originalRequest.GetGrantedAudience() == pre(originalRequest.GetGrantedAudience())
 //@   invariant loop#2 [C05.granted-from-original-only] (forall x string :: insl(request.GetGrantedAudience(), x) ==> insl(old(request.GetGrantedAudience()), x) || insl(originalRequest.GetGrantedAudience(), x))
 //@   invariant loop#2 [C12.refresh-carries-only-granted] (forall x string :: insl(request.GetGrantedAudience(), x) ==> insl(old(request.GetGrantedAudience()), x) || insl(originalRequest.GetGrantedAudience(), x))
+//@   ensures [C08.refreshed-tokens-carry-the-grant-id] err == nil ==> request.GetID() == rid
 
 //@ func (*RefreshTokenGrantHandler).PopulateTokenEndpointResponse
 //@   modifies anyheap
